@@ -346,9 +346,10 @@ where
             eprintln!("Progress bar thread emitted error message: {:?}", e);
         }
 
-        let sample_f32 = sample.to_data().convert::<f32>();
+        // f64 all the way to `RunStats::from`, which removes the location before narrowing to f32
+        let sample_f64 = sample.to_data().convert::<f64>();
         let view =
-            ArrayView3::<f32>::from_shape(sample.dims(), sample_f32.as_slice().unwrap()).unwrap();
+            ArrayView3::<f64>::from_shape(sample.dims(), sample_f64.as_slice().unwrap()).unwrap();
         let run_stats = RunStats::from(view);
 
         Ok((sample, run_stats))
